@@ -23,7 +23,10 @@ META = dict(
             "cannot encode; they are replaced by channels with the round-trip contract and are OUTSIDE the claim (delimiters, quotes, unicode are therefore not exercised)",
     bounds=dict(quick="<= 3 CSV rows incl. one zero-length row; TextGrid / ELAN: 2 tiers x <= 2 intervals, every tier selection, both label modes; RTTM: 2 uris x <= 2 tracks",
                 thorough="<= 4 rows, 3 tiers"),
-    outside="the file formats themselves (quoting, delimiters inside fields, unicode, float text formatting); duplicate tier names",
+    outside="the file formats themselves (quoting, delimiters inside fields, unicode, float text formatting) are not seen by the solver: the channel contract only "
+            "holds if reader and writer get the same csv dialect parameters, which IS an obligation; in addition a concrete cross-check on the real build, run with every "
+            "check, round-trips labels / annotator names with leading and trailing blanks, quotes, delimiters, tabs and unicode under four delimiters (a test, not part "
+            "of the solver claim); duplicate tier names",
     stubs=["csv.writer / csv.reader / open = in-memory channel", "textgrid.TextGrid, pympi.Eaf, load_rttm = objects exposing symbolic tiers / tracks"],
     assumptions=["labelled units (an unlabelled unit is written as an empty field and read back as the label '')", "intervals of one tier do not overlap"],
     cfg_budget_s=dict(quick=200, thorough=900),
@@ -63,6 +66,7 @@ def harness(cfg, ns):
         def __init__(self):
             self.files = {}
             self.opened = []
+            self.dialects = []          # csv dialect parameters the code passed to writer / reader
 
     def install_csv(ch):
         saved = (co.csv, co.__dict__.get("open"), co.float)
@@ -86,10 +90,11 @@ def harness(cfg, ns):
             return FH(path, mode)
 
         class W:
-            def __init__(self, fh, delimiter=","):
+            def __init__(self, fh, delimiter=",", **dialect):
                 self.fh, self.delimiter = fh, delimiter
                 ch.files.setdefault(fh.path + "#delim", delimiter)
                 ch.files[fh.path + "#delim"] = delimiter
+                ch.dialects.append(("writer", dict(dialect, delimiter=delimiter)))
 
             def writerow(self, row):
                 ch.files[self.fh.path].append(list(row))
@@ -98,7 +103,8 @@ def harness(cfg, ns):
                 for r in rows:
                     self.writerow(r)
 
-        def reader(fh, delimiter=","):
+        def reader(fh, delimiter=",", **dialect):
+            ch.dialects.append(("reader", dict(dialect, delimiter=delimiter)))
             if ch.files.get(fh.path + "#delim", delimiter) != delimiter:
                 raise core.Unsupported("file read with another delimiter than it was written with")
             for row in ch.files[fh.path]:
@@ -142,7 +148,10 @@ def harness(cfg, ns):
             eq1, eq2 = bool(back == c), bool(c == back)
         finally:
             undo()
-        o = [Obl("one-row-per-unit", len(rows) == c.num_units, rz),
+        wd = [d_ for k_, d_ in ch.dialects if k_ == "writer"]
+        rd = [d_ for k_, d_ in ch.dialects if k_ == "reader"]
+        o = [Obl("reader-and-writer-use-the-same-csv-dialect(the channel's round-trip contract)", len(wd) == 1 and len(rd) == 1 and wd[0] == rd[0], rz),
+             Obl("one-row-per-unit", len(rows) == c.num_units, rz),
              Obl("row==(annotator,label,start,end)", all(len(r) == 4 and isinstance(r[0], str) and (r[1] is None or isinstance(r[1], str)) for r in rows), rz),
              Obl("from_csv(to_csv(c))==c", eq1 and eq2, rz),
              Obl("same-categories", list(back.categories) == list(c.categories), rz),
@@ -310,6 +319,14 @@ def harness(cfg, ns):
 
 
 # ---------------------------------------------------------------------------------------------
+NASTY = [" lead", "trail ", "in ner", 'quo"te', "semi;colon", "com,ma", "tab\there", "unicodé-ß", "'single'", "a", " "]
+
+
+def real_checks(tier):
+    """concrete cross-check of what the channel stub cannot see: the real csv module with awkward field texts"""
+    return [dict(kind="csv-nasty", name="CSV round trip with leading / trailing blanks, quotes, delimiters, unicode in labels and annotators")]
+
+
 def replay(case):
     """real files in a temporary directory, real parsers"""
     import os
@@ -320,6 +337,18 @@ def replay(case):
     bad = []
     d = tempfile.mkdtemp(prefix="verif_c18_")
     try:
+        if case["kind"] in ("csv-nasty", "csv"):
+            # awkward texts in every field position, every delimiter
+            for delim in (",", ";", "\t", "|"):
+                c = pa.Continuum()
+                for i, lab in enumerate(NASTY):
+                    c.add(NASTY[(i * 3 + 1) % len(NASTY)] or "x", Segment(float(i), float(i) + 0.5 + i / 7), lab)
+                p = os.path.join(d, "nasty.csv")
+                c.to_csv(p, delimiter=delim)
+                back = pa.Continuum.from_csv(p, delimiter=delim)
+                if not (back == c) or list(back.categories) != list(c.categories) or list(back.annotators) != list(c.annotators):
+                    diff = [x for x in list(c) if x not in list(back)][:2]
+                    bad.append(f"delimiter {delim!r}: round trip differs, e.g. {diff}; categories {list(back.categories)} vs {list(c.categories)}")
         if case["kind"] == "csv":
             c = common.real_continuum(dict(units=case["units"]))
             p = os.path.join(d, "o.csv")
